@@ -469,22 +469,127 @@ func genProgramMode(t *rapid.T, disjoint, free bool) Program {
 	return p
 }
 
-// knownConflict returns the class of a cross-thread conflicting pair that is a listed, still reproducing finding.
+// knownPairSig: the listed, still reproducing finding the pair (ta[i], tb[j]) falls under ("" if none). Findings are
+// listed per class (operation kinds + path relation, C15:ns:<class>); the two coarse relation-wide entries of earlier
+// versions (C15:ns:same, C15:ns:parent-child) are still honoured if present.
+func knownPairSig(ta []Op, i int, tb []Op, j int) string {
+	c := pairClass(ta, i, tb, j)
+	if !conflicting(c, ta[i], tb[j]) {
+		return ""
+	}
+	if vf.Known("C15:ns:" + c) {
+		return "C15:ns:" + c
+	}
+	if rel := c[strings.LastIndex(c, ":")+1:]; (rel == "same" || rel == "parent-child") && vf.Known("C15:ns:"+rel) {
+		return "C15:ns:" + rel
+	}
+	return ""
+}
+
+// knownConflict returns the finding of a cross-thread conflicting pair that is listed and still reproducing.
 func knownConflict(p Program) string {
 	for a := 0; a < len(p.Threads); a++ {
 		for b := a + 1; b < len(p.Threads); b++ {
 			for i := range p.Threads[a] {
 				for j := range p.Threads[b] {
-					c := pairClass(p.Threads[a], i, p.Threads[b], j)
-					rel := c[strings.LastIndex(c, ":")+1:]
-					if conflicting(c, p.Threads[a][i], p.Threads[b][j]) && (rel == "same" || rel == "parent-child") && vf.Known("C15:ns:"+rel) {
-						return "C15:ns:" + rel
+					if k := knownPairSig(p.Threads[a], i, p.Threads[b], j); k != "" {
+						return k
 					}
 				}
 			}
 		}
 	}
 	return ""
+}
+
+// candidateOps: every operation instance a thread could issue next (weights by repetition of the kind).
+func candidateOps(pool []string, hasHandle bool) map[string][]Op {
+	out := map[string][]Op{}
+	for _, p := range pool {
+		for _, k := range []string{"mkdir", "mkdirall", "touch", "excl", "remove", "stat", "chmod"} {
+			out[k] = append(out[k], Op{K: k, P: p})
+		}
+		for _, q := range pool {
+			out["rename"] = append(out["rename"], Op{K: "rename", P: p, P2: q})
+		}
+		for _, f := range []int{os.O_RDWR, os.O_RDWR | os.O_CREATE, os.O_WRONLY | os.O_APPEND, os.O_RDWR | os.O_APPEND | os.O_CREATE, os.O_RDWR | os.O_TRUNC} {
+			out["hopen"] = append(out["hopen"], Op{K: "hopen", P: p, Flag: f})
+		}
+	}
+	if hasHandle {
+		for _, k := range []string{"hwrite", "hread", "htrunc", "hclose"} {
+			out[k] = []Op{{K: k}}
+		}
+	}
+	return out
+}
+
+// genProgramAvoiding constructs a program none of whose cross-thread pairs falls under a listed finding: every next
+// operation is drawn from the candidates compatible with the operations the other threads already have (construction,
+// not rejection). excluded counts the candidates that were filtered out.
+func genProgramAvoiding(t *rapid.T) (p Program, excluded int) {
+	p = Program{Setup: genSetup(t)}
+	nt := rapid.IntRange(2, 3).Draw(t, "threads")
+	weights := []string{"mkdir", "mkdir", "mkdirall", "touch", "touch", "excl", "remove", "remove", "rename", "stat", "stat", "chmod", "hopen", "hopen"}
+	for th := 0; th < nt; th++ {
+		n := rapid.IntRange(1, 3).Draw(t, "nops")
+		var cur []Op
+		has := false
+		for i := 0; i < n; i++ {
+			cands := candidateOps(paths, has)
+			ok := map[string][]Op{}
+			for k, cs := range cands {
+				for _, c := range cs {
+					trial := append(append([]Op{}, cur...), c)
+					bad := false
+					for _, other := range p.Threads {
+						for j := range other {
+							if knownPairSig(trial, len(trial)-1, other, j) != "" {
+								bad = true
+							}
+						}
+					}
+					if bad {
+						excluded++
+					} else {
+						ok[k] = append(ok[k], c)
+					}
+				}
+			}
+			ws := weights
+			if has {
+				ws = append(append([]string{}, weights...), "hwrite", "hwrite", "hwrite", "hread", "hread", "htrunc", "hclose")
+			}
+			var kinds []string
+			for _, k := range ws {
+				if len(ok[k]) > 0 {
+					kinds = append(kinds, k)
+				}
+			}
+			if len(kinds) == 0 {
+				break
+			}
+			k := rapid.SampledFrom(kinds).Draw(t, "k")
+			o := rapid.SampledFrom(ok[k]).Draw(t, "op")
+			switch o.K {
+			case "hwrite":
+				o.Data = rapid.StringMatching("[A-Z]{1,3}").Draw(t, "data")
+			case "htrunc":
+				o.N = rapid.IntRange(0, 4).Draw(t, "n")
+			case "hopen":
+				has = true
+			case "hclose":
+				has = false
+			}
+			cur = append(cur, o)
+		}
+		if len(cur) == 0 {
+			// nothing is compatible with what the other threads do: an observation of an unrelated path
+			cur = []Op{{K: "stat", P: "z/z"}}
+		}
+		p.Threads = append(p.Threads, cur)
+	}
+	return p, excluded
 }
 
 func firstConflictClass(p Program) string {
@@ -539,13 +644,12 @@ func checkSchedule(c Case, allowed map[string]bool) (string, string) {
 // TestSerializable: rapid-drawn programs and schedules.
 func TestSerializable(t *testing.T) {
 	vf.Check(t, "serial", func(rt *rapid.T, rec *vf.Rec) {
-		p := genProgram(rt, false)
-		if k := knownConflict(p); k != "" {
-			rec.Excluded(k)
-			rt.Skip("known finding " + k)
+		p, nexcl := genProgramAvoiding(rt)
+		if nexcl > 0 {
+			rec.Excluded("C15:ns:candidate-operations-of-listed-classes")
 		}
-		if vf.Known("C15:ns:same") || vf.Known("C15:ns:parent-child") {
-			rec.Excluded("C15:ns:generation-restricted-to-sibling-pools")
+		if k := knownConflict(p); k != "" {
+			panic(fmt.Sprintf("generator produced a listed class: %s in %v", k, p.Threads))
 		}
 		allowed := sequentialOutcomes(p)
 		nsched := 12
@@ -627,13 +731,12 @@ func judge(c Case, r schedRun, allowed map[string]bool) (string, string) {
 // TestSerializableDFS: per generated program, EVERY schedule with <= 2 pre-emptions.
 func TestSerializableDFS(t *testing.T) {
 	vf.Check(t, "dfs", func(rt *rapid.T, rec *vf.Rec) {
-		p := genProgram(rt, false)
-		if k := knownConflict(p); k != "" {
-			rec.Excluded(k)
-			rt.Skip("known finding " + k)
+		p, nexcl := genProgramAvoiding(rt)
+		if nexcl > 0 {
+			rec.Excluded("C15:ns:candidate-operations-of-listed-classes")
 		}
-		if vf.Known("C15:ns:same") || vf.Known("C15:ns:parent-child") {
-			rec.Excluded("C15:ns:generation-restricted-to-sibling-pools")
+		if k := knownConflict(p); k != "" {
+			panic(fmt.Sprintf("generator produced a listed class: %s in %v", k, p.Threads))
 		}
 		rec.Step(p)
 		conf := firstConflictClass(p)
